@@ -52,7 +52,7 @@ def run(chk: harness.Check):
         "matching public Metadata accessor must contain the same function while the accessor reads the same key constant; process_frontmatter and "
         "metadata() call check_std_entry with self.converter and store its Servings in content.data. D2: integer arithmetic inventory restricted to the "
         "metadata module. D3: in value_as_servings no order-changing or element-removing Vec method is applied to the vector that is returned, and every "
-        "dedup/windows test runs on a vector that was sorted first. D4: value_as_tags returns a vector it fills by pushes that lie under the false outcomes of is_empty() and contains(). Necessary conditions: what the parsers accept is not decided.")
+        "dedup/windows test runs on a vector that was sorted first. D5: nothing reachable from check_std_entry is one of the error-discarding accessors (value_as_*(..).ok()). D4: value_as_tags returns a vector it fills by pushes that lie under the false outcomes of is_empty() and contains(). Necessary conditions: what the parsers accept is not decided.")
     chk.trusted = ["rustc MIR, resolved callees", "tables/narrow_arith.toml"]
     chk.analysed = {"facts": th}
     d1_siblings(chk, F)
@@ -61,6 +61,43 @@ def run(chk: harness.Check):
     chk.notes["arith_sites_in_metadata"] = n
     d3_servings(chk, F)
     d4_tags(chk, F)
+    d5_strict(chk, F)
+
+
+def d5_strict(chk, F):
+    """'A value outside the documented forms gives a warning at parse time and nothing from the accessor': the parse-time
+    validator check_std_entry and everything it reaches interpret values through the Result-returning value_as_* functions;
+    the Option-returning accessors (value_as_*(..).ok()) discard the error and may only be used by the public accessors."""
+    import c09
+    from flow import leaves
+    lossy = {}
+    for k, g in F.funcs.items():
+        if g.crate != "cooklang" or g.is_closure() or "metadata" not in k:
+            continue
+        try:
+            e = c09.return_expr(g)
+        except Exception:
+            continue
+        if isinstance(e, tuple) and e[0] == "call" and e[1].endswith("Result::<T, E>::ok") and any("metadata::value_as_" in l for l in leaves(e)):
+            lossy[k] = g
+    chk.floor("C13.D5-strict", "error-discarding accessors (value_as_*(..).ok())", len(lossy), 4)
+    entry = [k for k in F.funcs if k.endswith("metadata::check_std_entry")]
+    if len(entry) != 1:
+        chk.fail("anchor-missing", "check_std_entry", "", "anchor-missing: metadata::check_std_entry not found")
+        return
+    reach = F.reach(entry)
+    bad = sorted(k for k in reach if k in lossy)
+    # witness: who calls it inside the reach
+    via = ""
+    if bad:
+        for g, kind, b, t in F.callers_of(bad[0]):
+            if g.key in reach:
+                via = f" (called from {g.key.split('metadata::')[-1]} at {g.where(b)})"
+                break
+    chk.expect(not bad, "C13.D5-strict", "check_std_entry|no lossy accessor", via.split(" at ")[-1].rstrip(")") if via else "",
+               f"the parse-time validator reaches the error-discarding accessor {bad[0].split('::')[-1] if bad else ''}{via}: an invalid nested value is dropped "
+               "silently — no warning, and the accessor returns a partial value",
+               sample=f"check_std_entry reaches {len([k for k in reach if 'metadata' in k])} metadata functions, none of the {len(lossy)} lossy accessors")
 
 
 def d4_tags(chk, F):
